@@ -75,7 +75,8 @@ def parseDown (s : String) : Option (Option Down) :=
     let es ← (listOf edes).mapM (·.toNat?)
     let a ← parseRRs ans
     let ss ← (listOf soas).mapM parseSoa
-    let mk ← mark.toList.head?
+    let mk ← (if mark == "n" then some Mark.none else if mark == "c" then some Mark.cached
+              else if mark == "a" then some Mark.attempt else if mark == "l" then some Mark.other else none)
     match f with
     | [ad, tc, opt, hasQ] =>
       some (some { rcode := rcode, ad := ad, tc := tc, opt := opt, hasQ := hasQ,
@@ -88,7 +89,9 @@ def parseAResp (s : String) : Option AResp :=
   | [e, rc, ans] => do
     let rcode ← rc.toNat?
     let a ← parseRRs ans
-    let ek ← e.toList.head?
+    let ek ← (if e == "n" then some AErr.none else if e == "g" then some AErr.generic
+              else if e == "a" then some AErr.attempt else if e == "w" then some AErr.work
+              else if e == "x" then some AErr.nilResp else if e == "q" then some AErr.noQueryer else none)
     some { err := ek, rcode := rcode, ans := a }
   | _ => none
 
